@@ -712,7 +712,13 @@ class MQTTBaseProtocol(Protocol):
         '''
         def doPingError():
             log.warn("--- {packet:7} Timeout", packet="PINGREQ")
+            self._stopKeepalive()
             self.transport.abortConnection()
+        if self._pingReq.alarm is not None and self._pingReq.alarm.active():
+            # The previous PINGREQ is still unanswered after a whole keepalive
+            # period: its deadline is due in this very instant.
+            doPingError()
+            return
         log.debug("==> {packet:7}", packet="PINGREQ")
         self.transport.write(self._pingReq.pdu)
         self._pingReq.alarm = self.callLater(self._pingReq.keepalive, doPingError)
